@@ -31,7 +31,7 @@ RULE = ('cases = histories: (target operator, nrows, buffersize, cache, source f
 ASSUMPTIONS = ['reference counting plus gc.collect() reaches quiescence', 'the harness drops exception objects and tracebacks before the quiescence check']
 TARGETS = ['sort', 'join', 'complement', 'distinct', 'aggregate', 'pivot', 'mergesort', 'fromdicts']
 REQUIRED = (['target:' + t for t in TARGETS] + ['files-created', 'files-removed', 'iterator-outlived-view', 'abandoned-mid-iteration',
-            'source-failed-midway', 'chunk-write-failed-midway', 'complete-pass-after-a-failed-pass', 'pass-from-file-cache', 'cache-cleared-under-live-iterator', 'three-iterators', 'view-released-first', 'cache-off', 'quiescent-points-checked', 'descending-sort', 'fromdicts:explicit-header'])
+            'source-failed-midway', 'chunk-write-failed-midway', 'complete-pass-after-a-failed-pass', 'pass-from-file-cache', 'cache-cleared-under-live-iterator', 'three-iterators', 'view-released-first', 'cache-off', 'quiescent-points-checked', 'descending-sort', 'fromdicts:explicit-header', 'fromdicts:rows-with-a-shared-cell-object', 'table-with-an-empty-row'])
 EXHAUSTIVE = {'quick': False, 'thorough': False}   # the enumerated families are complete within their bounds, but a seeded random family is judged too
 
 _audit = None
@@ -147,6 +147,15 @@ def cases(ctx):
                     for k0 in (1, 2, n + 2):
                         steps = [['iter', 0], ['next', 0, k0], ['iter', 1], ['next', 1, 'all'], ['iter', 2], ['next', 2, 'all'], ['next', 0, 'all']]
                         yield {'target': 'sort', 'n': n, 'buffersize': bs, 'cache': cache, 'fail': fail, 'failpass': 1, 'steps': steps}
+    # a completely empty row in the table (its key cell is missing: it sorts first, or last when descending) travels through the
+    # chunk files like any other row
+    for n in range(1, maxn + 2):
+        for bs in range(1, n + 2):
+            for cache in (True, False):
+                for rev in (False, True):
+                    for at in sorted({0, n // 2, n}):
+                        yield {'target': 'sort', 'n': n, 'buffersize': bs, 'cache': cache, 'fail': None, 'failpass': None, 'reverse': rev,
+                               'emptyrow': at, 'steps': _histories(2, (n + 4, n + 4), 'seq', 'iters-first')}
     # a chunk *write* that fails part-way: a cell that cannot be pickled sits at row `bad`; whatever was created must be gone
     # once everything is released
     for tgt in ('sort', 'distinct', 'mergesort', 'aggregate'):
@@ -179,6 +188,9 @@ def cases(ctx):
                     for release in ('view-first', 'iters-first'):
                         yield {'target': 'fromdicts', 'n': n, 'buffersize': None, 'cache': True, 'fail': None, 'failpass': None,
                                'steps': _histories(m, ks, family, release)}
+                        if m >= 2 and family == 'seq' and release == 'iters-first':
+                            yield {'target': 'fromdicts', 'n': n, 'buffersize': None, 'cache': True, 'fail': None, 'failpass': None,
+                                   'steps': _histories(m, ks, family, release), 'header': True, 'sparse': True}
                         if m >= 2:
                             # with an explicit header the view hands the caller's generator itself to its iterators
                             yield {'target': 'fromdicts', 'n': n, 'buffersize': None, 'cache': True, 'fail': None, 'failpass': None,
@@ -193,6 +205,9 @@ def cases(ctx):
                                  ['iter', 2], ['next', 2, 'all'], ['dropview'], ['drop', 0], ['drop', 1], ['drop', 2]]
                         yield {'target': 'fromdicts', 'n': n, 'buffersize': None, 'cache': True, 'fail': None, 'failpass': None, 'steps': steps,
                                'header': hdr_given}
+                        if hdr_given:
+                            yield {'target': 'fromdicts', 'n': n, 'buffersize': None, 'cache': True, 'fail': None, 'failpass': None, 'steps': steps,
+                                   'header': True, 'sparse': True}
         for fail in range(0, n + 1):
             for ks in itertools.product((1, n + 2), repeat=2):
                 yield {'target': 'fromdicts', 'n': n, 'buffersize': None, 'cache': True, 'fail': fail, 'failpass': 1,
@@ -269,6 +284,9 @@ def judge(case, ctx):
     tgt, n = case['target'], case['n']
     ctx.op('target:' + tgt)
     rows = _source_rows(n)
+    if case.get('emptyrow') is not None:
+        rows.insert(1 + case['emptyrow'], [])
+        ctx.seen('table-with-an-empty-row')
     fail, failpass = case['fail'], case['failpass']
     unpicklable = case.get('unpicklable')
     if unpicklable is not None:
@@ -282,6 +300,12 @@ def judge(case, ctx):
         if not case['cache']:
             ctx.seen('cache-off')
     # the fault-free solo sequence (reference): same operator, default in-memory strategy, fresh view
+    sparse = bool(case.get('sparse'))
+    if tgt == 'fromdicts' and sparse:
+        # records that carry the key only: the other two cells of every row are the one `missing` object (a replayed row whose
+        # cells share an object is where a pickle memo kept across rows shows)
+        ctx.seen('fromdicts:rows-with-a-shared-cell-object')
+        rows = [rows[0]] + [[r[0], 'NA', 'NA'] if i % 2 else list(r) for i, r in enumerate(rows[1:])]
     if tgt == 'fromdicts':
         solo = [tuple(rows[0])] + [tuple(r) for r in rows[1:]]
     else:
@@ -292,7 +316,13 @@ def judge(case, ctx):
     if tgt == 'fromdicts':
         if case.get('header'):
             ctx.seen('fromdicts:explicit-header')
-        view = petl.fromdicts(_dictgen(rows, fail), header=rows[0] if (n == 0 or fail == 0 or case.get('header')) else None)
+        if sparse:
+            def gen_(rows=rows, fail=fail):
+                for i, d in enumerate(_dictgen(rows, fail)):
+                    yield {'k': d['k']} if i % 2 else d
+            view = petl.fromdicts(gen_(), header=rows[0], missing='NA')
+        else:
+            view = petl.fromdicts(_dictgen(rows, fail), header=rows[0] if (n == 0 or fail == 0 or case.get('header')) else None)
     else:
         view = _build(case, rows, fail, failpass, kw)
     its = {}
